@@ -83,10 +83,33 @@ async fn memv(node: &ReplicatedShardedState, origin: &HashMap<String, (u64, u64)
     }).collect::<Vec<_>>())
 }
 
+/// A real always-fsync WAL actor for the node, on `store` (what the server binary attaches at start-up).
+fn attach_wal(node: &mut ReplicatedShardedState, store: &redis_sim::streaming::wal_store::InMemoryWalStore) -> (redis_sim::streaming::WalActorHandle, tokio::task::JoinHandle<()>) {
+    use redis_sim::streaming::wal_config::{FsyncPolicy, WalConfig};
+    let config = WalConfig {
+        enabled: true,
+        wal_dir: "/nonexistent".into(),
+        fsync_policy: FsyncPolicy::Always,
+        max_file_size: 700,
+        group_commit_max_entries: 4,
+        group_commit_max_wait: std::time::Duration::from_micros(200),
+        truncation_check_interval: std::time::Duration::from_secs(3600),
+    };
+    let (handle, task) = redis_sim::streaming::spawn_wal_actor(store.clone(), config).expect("wal actor");
+    node.set_wal_handle(handle.clone());
+    (handle, task)
+}
+
 async fn run_async(run: usize, steps: Vec<Value>, log: &mut Vec<Value>) {
     // every third run under the causal consistency level (register writes carry vector clocks)
     let causal = run % 3 == 2;
+    // every fourth run the node persists by itself: a real always-fsync WAL actor is attached, every local write is "placed"
+    // by the node (the trace says "wal": an acknowledged write is durable), a crash stops the actor, recovery replays what the
+    // real WAL holds - nothing the harness remembers
+    let realwal = run % 4 == 1;
+    let wal_store = redis_sim::streaming::wal_store::InMemoryWalStore::new();
     let mut node = new_node_with(1, causal);
+    let mut wal_actor = if realwal { Some(attach_wal(&mut node, &wal_store)) } else { None };
     let mut origin: HashMap<String, (u64, u64)> = HashMap::new();   // payload -> stamp of the write that carried it
     let mut everything: Vec<ReplicationDelta> = Vec::new();          // every delta issued or received, for the peer at the end
     let mut ckpt: Option<HashMap<String, ReplicatedValue>> = None;
@@ -106,8 +129,14 @@ async fn run_async(run: usize, steps: Vec<Value>, log: &mut Vec<Value>) {
                 } else if st.get("hash").and_then(|d| d.as_bool()).unwrap_or(false) {
                     // a write of another type is a stamped write too (HSET over a string fails and stamps nothing)
                     let _ = node.execute(argv_cmd(&["HSET", k, &format!("f{}", n % 3), &format!("v{n}")])).await;
+                } else if let Some(px) = st.get("px").and_then(|p| p.as_u64()).filter(|p| *p > 0) {
+                    // a key that will not live long is a stamped, acknowledged write like any other
+                    let _ = node.execute(argv_cmd(&["SET", k, &format!("v{n}"), "PX", &px.to_string()])).await;
                 } else {
                     let _ = node.execute(argv_cmd(&["SET", k, &format!("v{n}")])).await;
+                }
+                if realwal {
+                    ev["place"] = json!("wal");
                 }
                 let ds = node.collect_pending_deltas().await;
                 let mine: Vec<&ReplicationDelta> = ds.iter().filter(|d| d.key == k).collect();
@@ -115,7 +144,7 @@ async fn run_async(run: usize, steps: Vec<Value>, log: &mut Vec<Value>) {
                     Some(d) => {
                         ev["st"] = json!([ct(d.value.timestamp.time), d.value.timestamp.replica_id.0]);
                         origin.insert(format!("v{n}"), (d.value.timestamp.time, d.value.timestamp.replica_id.0));
-                        deltas.push((st["place"] == "wal", (*d).clone()));
+                        deltas.push((ev["place"] == "wal", (*d).clone()));
                         everything.push((*d).clone());
                     }
                     // DEL of a key the node does not hold writes nothing: not a clock event
@@ -140,6 +169,7 @@ async fn run_async(run: usize, steps: Vec<Value>, log: &mut Vec<Value>) {
                 let _ = node.execute(argv_cmd(&[if st.get("db").and_then(|d| d.as_bool()).unwrap_or(false) { "FLUSHDB" } else { "FLUSHALL" }])).await;
                 let _ = node.collect_pending_deltas().await;
             }
+            "checkpoint" if up && realwal => ev["skipped"] = json!(true),
             "checkpoint" if up => {
                 ckpt = Some(node.snapshot_state().await);
                 if st.get("trim").and_then(|d| d.as_bool()).unwrap_or(false) {
@@ -147,8 +177,24 @@ async fn run_async(run: usize, steps: Vec<Value>, log: &mut Vec<Value>) {
                 }
             }
             "crash" if up => {
+                if let Some((h, t)) = wal_actor.take() {
+                    h.shutdown().await;
+                    let _ = t.await;
+                }
                 node = new_node_with(1, causal);
                 up = false;
+            }
+            "recover" if !up && realwal => {
+                // the server's start-up: every entry of the real WAL, applied as recovered state; then a fresh actor on the same directory
+                match redis_sim::streaming::WalRotator::new(wal_store.clone(), 1 << 30).and_then(|rot| rot.recover_all_entries()) {
+                    Ok(entries) => {
+                        let ds: Vec<ReplicationDelta> = entries.iter().filter_map(|e| e.to_delta().ok()).collect();
+                        node.apply_recovered_state(None, ds);
+                    }
+                    Err(e) => ev["panic"] = json!(format!("WAL recovery failed: {e}")),
+                }
+                wal_actor = Some(attach_wal(&mut node, &wal_store));
+                up = true;
             }
             "recover" if !up => {
                 let seg: Vec<ReplicationDelta> = deltas.iter().filter(|(w, _)| !*w).map(|(_, d)| d.clone()).collect();
@@ -171,6 +217,10 @@ async fn run_async(run: usize, steps: Vec<Value>, log: &mut Vec<Value>) {
         peer.apply_remote_deltas(vec![d.clone()]);
     }
     log.push(json!({"a": "peer", "run": run, "mem": mem(&peer).await, "memv": memv(&peer, &origin).await}));
+    if let Some((h, t)) = wal_actor.take() {
+        h.shutdown().await;
+        let _ = t.await;
+    }
 }
 
 fn random_steps(rng: &mut impl Rng) -> Vec<Value> {
@@ -182,7 +232,8 @@ fn random_steps(rng: &mut impl Rng) -> Vec<Value> {
         let s = match rng.gen_range(0..10) {
             0..=3 if up => {
                 let kind = rng.gen_range(0..6);
-                json!({"a": "write", "k": k, "place": if rng.gen_bool(0.5) { "seg" } else { "wal" }, "del": kind == 0, "hash": kind == 1})
+                json!({"a": "write", "k": k, "place": if rng.gen_bool(0.5) { "seg" } else { "wal" }, "del": kind == 0, "hash": kind == 1,
+                       "px": if kind >= 4 { [300u64, 900, 5000][rng.gen_range(0..3)] } else { 0 }})
             }
             4..=5 if up => {
                 let t = [1u64, 2, 3, 7, 50, 1000][rng.gen_range(0..6)];
